@@ -14,7 +14,16 @@ use hickory_net::xfer::Protocol;
 use hickory_proto::op::{Message, OpCode, Query, ResponseCode};
 use hickory_proto::rr::TSigner;
 use hickory_proto::rr::rdata::tsig::TsigAlgorithm;
-use hickory_server::server::Request;
+use futures_util::{FutureExt, StreamExt};
+use hickory_net::runtime::Time;
+use hickory_net::BufDnsStreamHandle;
+use hickory_proto::dnssec::rdata::DNSKEY;
+use hickory_proto::dnssec::{crypto::Ed25519SigningKey, DnssecSigner, SigningKey};
+use hickory_proto::rr::LowerName;
+use hickory_server::dnssec::NxProofKind;
+use hickory_server::server::{Request, RequestHandler, ResponseHandle};
+use hickory_server::zone_handler::Catalog;
+use std::sync::Arc;
 use hickory_server::zone_handler::ZoneHandler;
 use hickory_proto::rr::rdata::SOA;
 use hickory_proto::rr::{DNSClass, Name, RData, Record, RecordType};
@@ -285,6 +294,101 @@ pub fn build_request(origin: &Name, pre: &[Record], upd: &[Record], signer: &TSi
         return None;
     }
     Request::from_bytes(bytes, "127.0.0.1:5300".parse().unwrap(), Protocol::Udp).ok()
+}
+
+/// the clock of the `Catalog` path: the fixed instant the messages are signed at
+pub struct FixedTime;
+
+#[async_trait::async_trait]
+impl Time for FixedTime {
+    async fn delay_for(duration: std::time::Duration) {
+        tokio::time::sleep(duration).await
+    }
+    async fn timeout<F: 'static + std::future::Future + Send>(duration: std::time::Duration, future: F) -> Result<F::Output, std::io::Error> {
+        tokio::time::timeout(duration, future).await.map_err(|_| std::io::Error::new(std::io::ErrorKind::TimedOut, "timeout"))
+    }
+    fn current_time() -> u64 {
+        NOW
+    }
+}
+
+/// an UPDATE message on the wire for the `Catalog` entry point.  `kind`: ok (signed with the configured key) | unsigned |
+/// badkey (signed with a key the server does not know) | ztype (zone section of type A) | nozone (a zone the catalog
+/// does not serve)
+pub fn catalog_message(origin: &Name, pre: &[Record], upd: &[Record], kind: &str) -> Option<Vec<u8>> {
+    let zname = if kind == "nozone" { Name::from_ascii("example.org.").unwrap() } else { origin.clone() };
+    let mut zone = Query::new(zname, if kind == "ztype" { RecordType::A } else { RecordType::SOA });
+    zone.set_query_class(DNSClass::IN);
+    let mut m = Message::query();
+    m.id = 4712;
+    m.op_code = OpCode::Update;
+    m.recursion_desired = false;
+    m.add_query(zone);
+    m.add_answers(pre.iter().cloned());
+    m.add_authorities(upd.iter().cloned());
+    match kind {
+        "unsigned" => {}
+        "badkey" => {
+            let other = TSigner::new(b"ffffffffffffffffffffffffffffffff".to_vec(), TsigAlgorithm::HmacSha256, Name::from_ascii("other-key.").unwrap(), 300).ok()?;
+            m.finalize(&other, NOW).ok()?;
+        }
+        _ => {
+            m.finalize(&signer(), NOW).ok()?;
+        }
+    }
+    let bytes = m.to_vec().ok()?;
+    let back = Message::from_vec(&bytes).ok()?;
+    if back.truncation || back.answers.len() != pre.len() || back.authorities.len() != upd.len() {
+        return None;
+    }
+    Some(bytes)
+}
+
+/// the server's real dispatch: `Catalog::handle_request` → `Catalog::update` → `ZoneHandler::update`; the rcode of the response
+pub fn run_update_catalog(rt: &tokio::runtime::Runtime, cat: &Catalog, bytes: Vec<u8>) -> String {
+    let src: std::net::SocketAddr = "127.0.0.1:5300".parse().unwrap();
+    let r = catch(|| {
+        rt.block_on(async {
+            let Ok(req) = Request::from_bytes(bytes, src, Protocol::Tcp) else { return "undecodable".to_string() };
+            let (handle, mut rx) = BufDnsStreamHandle::new(src);
+            cat.handle_request::<ResponseHandle, FixedTime>(&req, ResponseHandle::new(src, handle, Protocol::Tcp)).await;
+            match rx.next().now_or_never() {
+                Some(Some(m)) => match Message::from_vec(&m.into_parts().0) {
+                    Ok(resp) => match resp.response_code {
+                        ResponseCode::NoError => "NOERROR".to_string(),
+                        c => rc_tok(c).to_string(),
+                    },
+                    Err(_) => "undecodable-response".to_string(),
+                },
+                _ => "no-response".to_string(),
+            }
+        })
+    });
+    r.unwrap_or_else(|_| "panic".to_string())
+}
+
+/// a DNSSEC-enabled handler (`is_dnssec_enabled`, one Ed25519 zone signing key, NSEC chain): `update_records` then
+/// goes through `secure_zone()` (regenerate NSEC, bump the serial, re-sign) instead of `increment_soa_serial`
+pub fn new_dnssec_handler(origin: &Name, recs: &[Record]) -> Option<Handler> {
+    let mut mem = InMemoryZoneHandler::<TokioRuntimeProvider>::empty(origin.clone(), ZoneType::Primary, AxfrPolicy::Deny, Some(NxProofKind::Nsec));
+    for r in recs {
+        mem.upsert_mut(r.clone(), 0);
+    }
+    let pk = Ed25519SigningKey::generate_pkcs8().ok()?;
+    let key = Ed25519SigningKey::from_pkcs8(&pk).ok()?;
+    let signer_ = DnssecSigner::new(DNSKEY::from_key(&key.to_public_key().ok()?), Box::new(key), origin.clone(), std::time::Duration::from_secs(86400));
+    mem.add_zone_signing_key_mut(signer_).ok()?;
+    mem.secure_zone_mut().ok()?;
+    let mut h = SqliteZoneHandler::new(mem, AxfrPolicy::Deny, true, true);
+    h.set_tsig_signers(vec![signer()]);
+    Some(h)
+}
+
+/// the records the DNSSEC machinery itself maintains are not the UPDATE's business: the oracle looks at the rest
+fn without_dnssec(mut s: Snap) -> Snap {
+    // (the zone's DNSKEY / NSEC3PARAM are ordinary data an UPDATE may delete; NSEC / NSEC3 / RRSIG are regenerated)
+    s.rrs.retain(|r| ![46u16, 47, 50].contains(&r.rtype));
+    s
 }
 
 /// the whole `ZoneHandler::update` (authorise → prerequisites → prescan → apply)
@@ -701,7 +805,8 @@ pub fn judge(origin: &Name, before: &Snap, after: &Snap, pre: &[Record], upd: &[
         let mut cur = before.serial;
         let mut steps = 0;
         for r in upd_m.iter().filter(|r| r.class == C_IN && r.rtype == T_SOA && r.name == zname) {
-            let ns = (RR { name: String::new(), rtype: T_SOA, ttl: 0, rd: r.rd.clone() }).soa_serial().unwrap_or(0);
+            // (an "SOA" RR without RDATA sets nothing)
+            let Some(ns) = (RR { name: String::new(), rtype: T_SOA, ttl: 0, rd: r.rd.clone() }).soa_serial() else { continue };
             if serial_lt(cur, ns) {
                 cur = ns;
                 steps += 1;
@@ -730,7 +835,11 @@ pub fn judge(origin: &Name, before: &Snap, after: &Snap, pre: &[Record], upd: &[
 pub struct Hist {
     pub rt: tokio::runtime::Runtime,
     pub origin: Name,
-    pub h: Option<Handler>,
+    pub h: Option<Arc<Handler>>,
+    /// the catalog that serves `h` (entry point of `updc`)
+    pub cat: Option<Catalog>,
+    /// the history runs on a DNSSEC-enabled handler: no model side (`begind`)
+    pub dnssec: bool,
     /// fed every message through the three public calls; `updf` compares the real `update()` with it
     pub twin: Option<Handler>,
     pub changes: u32,
@@ -754,17 +863,104 @@ pub fn exec(line: &str, hist: &mut Hist, rec: &mut Recorder) {
                 rec.stat("skipped.unparsable-case");
                 return;
             };
-            let h = new_handler(&o, &rs);
+            let h = Arc::new(new_handler(&o, &rs));
             let s = snapshot(&hist.rt, &h);
             rec.case(line.to_string(), format!("begin {} 0 {}", s.serial, s.dump));
             hist.twin = Some(new_handler(&o, &rs));
+            let mut cat = Catalog::new();
+            cat.upsert(LowerName::new(&o), vec![h.clone() as Arc<dyn ZoneHandler>]);
+            hist.cat = Some(cat);
+            hist.dnssec = false;
             hist.origin = o;
             hist.h = Some(h);
             hist.changes = 0;
             rec.stat("op.begin");
         }
+        ["begind", origin, recs @ ..] => {
+            // DNSSEC-enabled store variant: implementation vs oracle only
+            let (Some(o), Some(rs)) = (parse_name(origin), recs.iter().map(|x| parse_rec(x)).collect::<Option<Vec<_>>>()) else {
+                rec.stat("skipped.unparsable-case");
+                return;
+            };
+            let Some(h) = new_dnssec_handler(&o, &rs) else {
+                rec.stat("skipped.dnssec-handler");
+                return;
+            };
+            rec.impl_only += 1;
+            rec.case(line.to_string(), "~".into());
+            hist.twin = None;
+            hist.cat = None;
+            hist.dnssec = true;
+            hist.origin = o;
+            hist.h = Some(Arc::new(h));
+            hist.changes = 0;
+            rec.stat("op.begind");
+        }
+        ["updc", kind, rest @ ..] => {
+            // through the server's dispatch: Catalog::handle_request → Catalog::update → ZoneHandler::update
+            let (Some(h), Some(cat), Some((p, u))) = (hist.h.as_ref(), hist.cat.as_ref(), split_pu(rest)) else {
+                rec.stat("skipped.unparsable-case");
+                return;
+            };
+            let Some(bytes) = catalog_message(&hist.origin, &p, &u, kind) else {
+                rec.stat("skipped.unencodable-message");
+                return;
+            };
+            let before = snapshot(&hist.rt, h);
+            let res = run_update_catalog(&hist.rt, cat, bytes);
+            let after = snapshot(&hist.rt, h);
+            rec.stat("op.updc");
+            rec.stat(&format!("updc.{kind}.{res}"));
+            match *kind {
+                "ok" => {
+                    let Some(tw) = hist.twin.as_ref() else { return };
+                    let (tstage, tres) = run_update(&hist.rt, tw, &p, &u);
+                    let tafter = snapshot(&hist.rt, tw);
+                    let idx = rec.case(line.to_string(), format!("cat {res} {} 0 {}", after.serial, after.dump));
+                    let want = if tres.starts_with("ok") { "NOERROR" } else { tres.as_str() };
+                    if res != want || after != tafter {
+                        rec.fail(idx, format!("the response to the UPDATE sent through the Catalog has rcode {res} (serial {}); verify_prerequisites → pre_scan → update_records gives {tstage}/{tres} (serial {}) or leaves a different zone", after.serial, tafter.serial), "");
+                    }
+                    let as_res = if res == "NOERROR" { tres.clone() } else { res.clone() };
+                    let v = judge(&hist.origin, &before, &after, &p, &u, tstage, &as_res);
+                    if v.changed {
+                        hist.changes += 1;
+                    }
+                    if v.changed || hist.changes > 0 {
+                        rec.nontrivial(idx);
+                    }
+                    for (what, class) in v.fails {
+                        rec.stat(&format!("oracle.fail.{}", if class.is_empty() { "UNCLASSIFIED" } else { &class }));
+                        rec.fail(idx, what, &class);
+                    }
+                }
+                "unsigned" => {
+                    // modelled: `update` with authorisation refused
+                    let idx = rec.case(line.to_string(), format!("cat {res} {} 0 {}", after.serial, after.dump));
+                    if res != "REFUSED" {
+                        rec.fail(idx, format!("an unsigned UPDATE was answered {res}, not REFUSED"), "");
+                    }
+                    if before != after {
+                        rec.fail(idx, "an unsigned UPDATE changed the zone".to_string(), "");
+                    }
+                }
+                _ => {
+                    // no model side: whatever is answered, nothing may change, and never NOERROR
+                    rec.impl_only += 1;
+                    let idx = rec.case(line.to_string(), "~".into());
+                    if before != after {
+                        rec.fail(idx, format!("an UPDATE that must be rejected ({kind}) changed the zone"), "");
+                    }
+                    let expect = match *kind { "badkey" => "NOTAUTH", "ztype" => "FORMERR", _ => "" };
+                    if res == "NOERROR" || res == "panic" || res == "no-response" || (!expect.is_empty() && res != expect) {
+                        rec.fail(idx, format!("an UPDATE that must be rejected ({kind}) was answered {res}{}", if expect.is_empty() { String::new() } else { format!(", expected {expect}") }), "");
+                    }
+                }
+            }
+        }
         ["end"] => {
             rec.case(line.to_string(), "end".into());
+            hist.cat = None;
             hist.h = None;
             hist.twin = None;
         }
@@ -811,7 +1007,14 @@ pub fn exec(line: &str, hist: &mut Hist, rec: &mut Recorder) {
             if let Some(tw) = hist.twin.as_ref() {
                 let _ = run_update(&hist.rt, tw, &p, &u);
             }
-            let idx = rec.case(line.to_string(), format!("{stage} {res} {} 0 {}", after.serial, after.dump));
+            let (before, after) = if hist.dnssec { (without_dnssec(before), without_dnssec(after)) } else { (before, after) };
+            let idx = if hist.dnssec {
+                rec.impl_only += 1;
+                rec.stat("upd.on-dnssec-enabled-zone");
+                rec.case(line.to_string(), "~".into())
+            } else {
+                rec.case(line.to_string(), format!("{stage} {res} {} 0 {}", after.serial, after.dump))
+            };
             let v = judge(&hist.origin, &before, &after, &p, &u, stage, &res);
             rec.stat("op.upd");
             rec.stat(&format!("upd.{stage}.{res}"));
@@ -900,7 +1103,9 @@ fn n(s: &str) -> Name {
     Name::from_ascii(s).unwrap()
 }
 
-pub const NAMES_IN: [&str; 10] = [
+pub const NAMES_IN: [&str; 12] = [
+    "alias2.example.com.",
+    "loop.example.com.",
     "example.com.",
     "a.example.com.",
     "b.example.com.",
@@ -1010,6 +1215,17 @@ pub fn gen_zone(rng: &mut Rng) -> Vec<Record> {
     }
     if rng.chance(1, 3) {
         z.push(mk("*.w.example.com.", 300, RData::TXT(TXT::new(vec!["t1".to_string()]))));
+    }
+    if rng.chance(1, 4) {
+        // CNAME chain, a CNAME loop, a CNAME out of the zone (what `chase_cnames` walks), DS at the delegation
+        z.push(mk("alias2.example.com.", 300, RData::CNAME(CNAME(n("alias.example.com.")))));
+        z.push(mk("loop.example.com.", 300, RData::CNAME(CNAME(n("loop.example.com.")))));
+        if rng.chance(1, 2) {
+            z.push(mk("www.example.com.", 300, RData::CNAME(CNAME(n("other.org.")))));
+        }
+        if let Some(ds) = usable_types("sub.example.com.").into_iter().find(|t| t.contains(",43,")) {
+            z.push(parse_rec(&ds).expect("ds"));
+        }
     }
     if rng.chance(1, 25) {
         let mut r = gen_large(rng);
@@ -1139,16 +1355,27 @@ pub fn gen_large(rng: &mut Rng) -> Record {
 pub fn gen_odd(rng: &mut Rng, prereq: bool) -> Record {
     let picked = pick_name(rng);
     let name = name_tok(&n(&cased(rng, picked)));
-    let t = *rng.pick(&[T_NULL, T_NULL, T_NULL, 65280, T_MAILB, T_MAILA]);
+    if !prereq && rng.chance(1, 8) {
+        // an "SOA" without RDATA for the apex: `RecordSet::insert` ignores it (wrong rdata for SOA update)
+        return parse_rec(&format!("{},6,1,300,-", name_tok(&n("example.com.")))).expect("soa0");
+    }
+    let t = *rng.pick(&[T_NULL, T_NULL, T_NULL, 65280, T_MAILB, T_MAILA, 43]);
     let class = *rng.pick(&[C_ANY, C_ANY, C_NONE, C_IN]);
     let rd = if rng.chance(2, 3) { *rng.pick(&["x00ff", "x01", "x00ff"]) } else { "-" };
     let ttl = if class == C_IN && !prereq { 300 } else { 0 };
+    let ds = format!("x{}", every_type_rdata().into_iter().find(|x| x.0 == 43).map(|x| x.1).unwrap_or_default());
+    let rd = if t == 43 && rd != "-" { ds.as_str() } else { rd };
     parse_rec(&format!("{name},{t},{class},{ttl},{rd}")).expect("odd record")
 }
 
 pub fn gen_prereq(rng: &mut Rng) -> Record {
     if rng.chance(1, 25) {
         return gen_odd(rng, true);
+    }
+    if rng.chance(1, 25) {
+        // DS at / below the delegation: `inner_lookup` answers a DS query at the cut itself, not with the referral
+        let nm = *rng.pick(&["sub.example.com.", "x.sub.example.com.", "a.example.com."]);
+        return with_class(Record::update0(n(&cased(rng, nm)), 0, RecordType::DS), *rng.pick(&[C_ANY, C_NONE]));
     }
     let picked = pick_name(rng);
     let name = n(&cased(rng, picked));
@@ -1260,8 +1487,18 @@ fn gen_history(rng: &mut Rng) -> Vec<String> {
         let k = if i + 1 == len { rng.below(20) } else { rng.below(18) };
         if k < 16 {
             let m = gen_msg(rng);
-            // one message in five goes through the real `update()` as a TSIG-signed wire message
-            v.push(if rng.chance(1, 5) { m.replacen("upd ", "updf ", 1) } else { m });
+            // one message in five goes through the real `update()` as a TSIG-signed wire message, one in eight through
+            // the server's dispatch (`Catalog`), a few of those unsigned / with a foreign key / with a wrong zone section
+            let k = rng.below(40);
+            v.push(if k < 8 {
+                m.replacen("upd ", "updf ", 1)
+            } else if k < 13 {
+                m.replacen("upd ", "updc ok ", 1)
+            } else if k < 15 {
+                m.replacen("upd ", &format!("updc {} ", *rng.pick(&["unsigned", "badkey", "ztype", "nozone"])), 1)
+            } else {
+                m
+            });
         } else if k < 18 {
             let np = rng.range(1, 2);
             let mut s = String::from("pre");
@@ -1284,10 +1521,54 @@ fn gen_history(rng: &mut Rng) -> Vec<String> {
     v
 }
 
+/// a history on a DNSSEC-enabled handler (only `upd` lines; no model side)
+fn gen_dnssec_history(rng: &mut Rng) -> Vec<String> {
+    let mut v = vec![gen_begin(rng, "begind")];
+    for _ in 0..rng.range(2, 6) {
+        v.push(gen_msg(rng));
+    }
+    v.push("end".into());
+    v
+}
+
+/// zones the API can build but no zone file should: no SOA at all, or an "SOA" with empty RDATA — driven by `raw`
+/// (`update_records` alone: model correspondence without oracle) through `serial()` / `increment_soa_serial` / the
+/// SOA arms of `RecordSet::insert` that a well-formed zone never reaches
+fn gen_broken_zone_history(rng: &mut Rng) -> Vec<String> {
+    let full = gen_begin(rng, "begin");
+    let mut toks: Vec<String> = full.split(' ').map(String::from).collect();
+    // tokens: begin origin soa ...
+    match rng.below(3) {
+        0 => {
+            toks.remove(2);
+        }
+        1 => {
+            let soa = toks[2].clone();
+            let parts: Vec<&str> = soa.split(',').collect();
+            toks[2] = format!("{},{},{},{},-", parts[0], parts[1], parts[2], parts[3]);
+        }
+        _ => {
+            // a class-CH record among the initial ones (`upsert` refuses the foreign class)
+            toks.push(format!("{},1,3,300,x0a000001", name_tok(&n("a.example.com."))));
+        }
+    }
+    let mut v = vec![toks.join(" ")];
+    for _ in 0..rng.range(1, 4) {
+        let mut s = String::from("raw");
+        for _ in 0..rng.range(1, 3) {
+            s.push(' ');
+            s.push_str(&rec_tok(&gen_update(rng)));
+        }
+        v.push(s);
+    }
+    v.push("end".into());
+    v
+}
+
 pub fn run(o: &Opts, rec: &mut Recorder) {
     GIANTS.store(o.thorough(), std::sync::atomic::Ordering::Relaxed);
     rec.rule = "an `upd`/`pre` line that changed the zone or was judged after an earlier change of the same history (distinct by case text)".into();
-    let mut hist = Hist { rt: rt(), origin: Name::root(), h: None, twin: None, changes: 0 };
+    let mut hist = Hist { rt: rt(), origin: Name::root(), h: None, cat: None, dnssec: false, twin: None, changes: 0 };
     for l in &o.pre_lines {
         exec(l, &mut hist, rec);
     }
@@ -1296,7 +1577,12 @@ pub fn run(o: &Opts, rec: &mut Recorder) {
     let histories = o.n(20_000, 400_000);
     for _ in 0..histories {
         let mut r = rng.fork();
-        for l in gen_history(&mut r) {
+        let h = match r.below(40) {
+            0 | 1 => gen_dnssec_history(&mut r),
+            2 => gen_broken_zone_history(&mut r),
+            _ => gen_history(&mut r),
+        };
+        for l in h {
             exec(&l, &mut hist, rec);
         }
     }
